@@ -18,7 +18,7 @@ _assign = re.compile(r'^/\\ (\w+) = (.*)$')
 def iter_cases(dump_path):
     """Fast reader of the Gen dump: only fn/par/w/series/exp are needed and every value is made of integers,
     strings and tuples, so `<<` `>>` map to JSON brackets."""
-    want = ('fn', 'par', 'w', 'series', 'exp')
+    want = ('fn', 'par', 'w', 'desc', 'series', 'exp')
     cur, name, buf = {}, None, []
 
     def flush():
@@ -95,9 +95,13 @@ def run(ctx):
         'non-dyadic slope or the time unit is not a power of two (several roundings in linearFloat): same tolerance 1e-12',
         'series have strictly increasing timestamps (one stored series); <= 5 points, so sort.Sort is a stable insertion '
         'sort and ties between equal values are ordered by time (percentile, top, bottom definitions use (value, time) order)',
-        'integral under GROUP BY time is claimed only when consecutive points lie in the same or adjacent windows (the code '
-        'credits the area over an entirely empty window to the next non-empty one; not documented)',
-        'a row for a window whose part of the integral curve is a single instant is optional (value 0 if present)',
+        'integral under GROUP BY time: the curve is cut at the end of the window of each point; across wholly empty windows the '
+        'area from that cut to the next point is credited to the next point\'s window and the empty windows give no row '
+        '(behaviour of the unchanged code; not documented)',
+        'a row for a window whose part of the integral curve is a single instant is optional (value 0 if present); so is the row '
+        'of the last window when the last point lies exactly on its start after skipped windows (Close() discards it)',
+        'top/bottom are also run under ORDER BY time DESC and their reducers are fed directly in ascending, descending and '
+        'interleaved order: the selection must not depend on the arrival order',
         'the row time of integral() without GROUP BY time is compared only for ranges starting at the epoch (the float reducer '
         'reports the epoch, the integer reducer the lower bound of the range; the documentation shows the epoch)',
         'GROUP BY time queries use fill(none): only windows that contain points produce rows (fill is C22)',
